@@ -258,6 +258,16 @@ func runRW(c *Case) []string {
 				time.Sleep(2 * time.Millisecond)
 			}
 			return tail("")
+		case "peeroob":
+			// file flavour: one urgent byte. It is not part of the byte stream, but a kernel read stops at its mark, so the
+			// data around it reaches a single read attempt as two successful reads with no would-block in between
+			if !adapter {
+				if rc, err := peer.(*net.TCPConn).SyscallConn(); err == nil {
+					_ = rc.Control(func(fd uintptr) { _ = syscall.Sendto(int(fd), []byte{0x7f}, syscall.MSG_OOB, nil) })
+				}
+				time.Sleep(2 * time.Millisecond)
+			}
+			return tail("")
 		case "peereof":
 			if !adapter {
 				_ = peer.(*net.TCPConn).CloseWrite()
